@@ -61,6 +61,8 @@ class Disk:
         # tmpfs): here it is a seeded permutation, a function of (seed, listing number of the operation, path)
         self.order_seed: typing.Optional[int] = None
         self.permuted = 0
+        self.error_mode = False
+        self.failed_paths: set = set()
 
     def permute(self, path, names: list) -> list:
         if self.order_seed is None or len(names) < 2:
@@ -87,6 +89,11 @@ class Disk:
         self.log = []
         self.crash_at = crash['at'] if crash else None
         self.cut = crash.get('cut') if crash else None
+        # error mode: the call at the crash index fails with an OSError instead of the process dying there (a write
+        # first gets `cut` bytes through: disk full / quota / medium error); the process lives on, exceptions unwind,
+        # finally-blocks and __exit__s run - and every later write to the same file fails as well
+        self.error_mode = bool(crash and crash.get('error'))
+        self.failed_paths: set = set()
         self.enabled = True
 
     def end(self) -> list[list]:
@@ -146,6 +153,19 @@ class Disk:
             self.on_pause()
         self.n += 1
         self.log.append([self.n, kind, self.rel(path), size])
+        if getattr(self, 'error_mode', False):
+            import errno  # pylint: disable=import-outside-toplevel
+
+            name = os.fspath(path)
+            if self.crash_at == self.n:
+                self.log.append([self.n, 'io-error', self.rel(path), None])
+                if kind == 'write':
+                    self.failed_paths.add(name)
+                    return max(0, min(self.cut or 0, (size or 1) - 1))
+                raise OSError(errno.EIO, 'injected: I/O error', name)
+            if kind == 'write' and name in self.failed_paths:
+                raise OSError(errno.ENOSPC, 'injected: no space left on device', name)
+            return None
         if self.crash_at == self.n:
             if kind == 'write' and self.cut is not None and size:
                 return max(0, min(self.cut, size - 1))
@@ -169,6 +189,10 @@ class CrashFileIO(io.FileIO):
             done = 0
             while done < cut:
                 done += super().write(view[done:cut])
+            if disk.error_mode:
+                import errno  # pylint: disable=import-outside-toplevel
+
+                raise OSError(errno.ENOSPC, 'injected: no space left on device', self._path)
             disk.on_crash()
         return super().write(data)
 
